@@ -972,7 +972,7 @@ func randomCase(r *xvlib.Rng) []string {
 
 func concLine(r *xvlib.Rng) string {
 	l := fmt.Sprintf("conc %d %d", 2+r.Intn(3), r.Intn(1000))
-	if r.Chance(1, 6) {
+	if r.Chance(1, 8) {
 		l += " free"
 	}
 	return l
@@ -1319,5 +1319,5 @@ func main() {
 	if initDeep >= 0 {
 		deepNote = fmt.Sprintf(" (%d for tip ≤ %d)", initN+1, initDeep)
 	}
-	out.Stats.Rule = fmt.Sprintf("InitQCTree (the real function over a ledger of blocks 0..tip) for every tip ≤ %d × every start height 0..tip+2, each continued with chain growth through proposal-with-commit steps, rollbacks to every ledger block and every tree of ≤ %d new proposals%s below the last five ledger blocks in every arrival order; one random case in three starts from such a tree (tip ≤ 8); ", initTip, initN, deepNote) + fmt.Sprintf("every block tree of n ≤ %d proposals (all parent vectors) × every arrival order (n! permutations), each followed by certification and commit of the deepest proposal, one duplicate arrival and one more certification; plus %d random cases: block trees of 3..12 proposals (chain bias 30/60/85%%, occasional view gaps), arrival orders from parents-first to children-first to uniformly random, interleaved updateHighQC / vote-quorum / updateCommit / enforceUpdateHighQC / pacemaker / duplicate arrivals / proposal-with-commit ops and a full re-delivery; views at the int64 boundaries (MinInt64, MinInt64+1, -1, 0, 1, MaxInt64-1, MaxInt64): every triple of certificates, justify views of proposals, votes on proposals carrying them, chains / forks ending at MaxInt64 or starting at MinInt64 in both arrival orders, one random case in ten shifted to a boundary; op conc (k = 2..4 independent trees = prefixes of the case, driven at the same time by the real code, interleaved at every id read of a lookup under a seeded scheduler, one in six as free goroutines): every tree of ≤ 3 proposals × every arrival order × 4 schedules, the restart trees for tip ≤ 4, one random case in eight; every thread's answers = the answers of the case alone, C15 oracle on every thread's tree; after EVERY op the full dump is compared with the model and the C15 oracle is evaluated on the real pointer structure; a case is non-trivial if it ends with orphans, a moved root, pruned/expired proposals or ≥ 3 tree nodes; distinct by op list", exN, randCases)
+	out.Stats.Rule = fmt.Sprintf("InitQCTree (the real function over a ledger of blocks 0..tip) for every tip ≤ %d × every start height 0..tip+2, each continued with chain growth through proposal-with-commit steps, rollbacks to every ledger block and every tree of ≤ %d new proposals%s below the last five ledger blocks in every arrival order; one random case in three starts from such a tree (tip ≤ 8); ", initTip, initN, deepNote) + fmt.Sprintf("every block tree of n ≤ %d proposals (all parent vectors) × every arrival order (n! permutations), each followed by certification and commit of the deepest proposal, one duplicate arrival and one more certification; plus %d random cases: block trees of 3..12 proposals (chain bias 30/60/85%%, occasional view gaps), arrival orders from parents-first to children-first to uniformly random, interleaved updateHighQC / vote-quorum / updateCommit / enforceUpdateHighQC / pacemaker / duplicate arrivals / proposal-with-commit ops and a full re-delivery; views at the int64 boundaries (MinInt64, MinInt64+1, -1, 0, 1, MaxInt64-1, MaxInt64): every triple of certificates, justify views of proposals, votes on proposals carrying them, chains / forks ending at MaxInt64 or starting at MinInt64 in both arrival orders, one random case in ten shifted to a boundary; op conc (k = 2..4 independent trees = prefixes of the case, driven at the same time by the real code, interleaved at every id read of a lookup under a seeded scheduler, one in eight as free goroutines, each thread 30 times over): every tree of ≤ 3 proposals × every arrival order × 4 schedules, the restart trees for tip ≤ 4, one random case in eight; every thread's answers = the answers of the case alone, C15 oracle on every thread's tree; after EVERY op the full dump is compared with the model and the C15 oracle is evaluated on the real pointer structure; a case is non-trivial if it ends with orphans, a moved root, pruned/expired proposals or ≥ 3 tree nodes; distinct by op list", exN, randCases)
 }
